@@ -190,7 +190,10 @@ pub fn run(ctx: &Ctx) -> i32 {
             wincons(name, gid, fid, pff[t[0]], pdu[t[1]], gsh[t[2]], 27.0)
         };
         m.cons.wincons = vec![mk("winc", &ta), mk("winc2", &tb)];
-        m.windows.push(window("W2", uid("winc2"), uid("S1_E"), Some([1.0, 1.0]), 2.0, 1.5, 0.0));
+        // (every other pair: no window uses the second construction - it is a window construction of the model all the same)
+        if i % 2 == 0 {
+            m.windows.push(window("W2", uid("winc2"), uid("S1_E"), Some([1.0, 1.0]), 2.0, 1.5, 0.0));
+        }
         ctx.eval(1);
         let case = || json!({"part": "pair", "first": pg.describe(&ta), "second": pg.describe(&tb), "wincons": serde_json::to_value(&m.cons.wincons).unwrap()});
         if i == np / 3 {
@@ -220,7 +223,7 @@ pub fn run(ctx: &Ctx) -> i32 {
         }
         // K: each window enters with its own U, or with 5.7 when it has none (both windows measure 2 x 1.5)
         let (ua, ub) = (expect(&ta).0.unwrap_or(5.7), expect(&tb).0.unwrap_or(5.7));
-        let um_ref = (ua + ub) / 2.0;
+        let um_ref = if i % 2 == 0 { (ua + ub) / 2.0 } else { ua };
         match ind.K_data.windows.u_mean {
             Some(um) if (um as f64 - um_ref).abs() <= 0.00501 + 1e-4 * um_ref => {}
             other => ctx.violation("K.windows.u_mean:pair", &format!("K windows u_mean={:?} expected {:.3} (windows with U {:.3} and {:.3}; 5.7 where none)", other, um_ref, ua, ub), case()),
@@ -239,7 +242,7 @@ pub fn run(ctx: &Ctx) -> i32 {
     ctx.nontriv(nt);
     ctx.finish(
         "model_checking",
-        "full Cartesian product f_f{0,.1,.25,.5,1} x dU{0,10,50} x Uglass{.6,1,3.3,5.7} x Uframe{.8,2.2,5.7,7} x g_n{.2,.5,.85,0 (opaque panel)} x g_glshwi{None,.05,.337,0 (opaque shading)} x glass ref{ok,nil,dangling} x frame ref{ok,nil,dangling}, each construction observed directly (WinCons::u_value/g_glwi/g_glshwi), again after a JSON round trip of the model, and inside a one-window box model through props.wincons, K_data.windows and q_soljul_data; tuples are distinct by construction (every other model lists a decoy glazing and frame first); all ordered pairs of a 96-construction alphabet (f_f{0,.25} x dU{0,10} x g_glshwi(3) x glazing{gl,gl2,nil,dangling} x frame{fr,nil}) as two constructions of one model with one window each, every props.wincons entry against the formula for that construction alone and the mean window U in K against the two values (5.7 where a construction has none); non-trivial = glazing and frame both resolve (formula path)",
+        "full Cartesian product f_f{0,.1,.25,.5,1} x dU{0,10,50} x Uglass{.6,1,3.3,5.7} x Uframe{.8,2.2,5.7,7} x g_n{.2,.5,.85,0 (opaque panel)} x g_glshwi{None,.05,.337,0 (opaque shading)} x glass ref{ok,nil,dangling} x frame ref{ok,nil,dangling}, each construction observed directly (WinCons::u_value/g_glwi/g_glshwi), again after a JSON round trip of the model, and inside a one-window box model through props.wincons, K_data.windows and q_soljul_data; tuples are distinct by construction (every other model lists a decoy glazing and frame first); all ordered pairs of a 96-construction alphabet (f_f{0,.25} x dU{0,10} x g_glshwi(3) x glazing{gl,gl2,nil,dangling} x frame{fr,nil}) as two constructions of one model with one window each (in every other pair no window uses the second one), every props.wincons entry against the formula for that construction alone and the mean window U in K against the two values (5.7 where a construction has none); non-trivial = glazing and frame both resolve (formula path)",
         true,
         json!({"space_size": n, "pairs": np}),
     )
